@@ -30,12 +30,25 @@ Definition arith (op:binop) (a b:V) : option V :=
   | OAdd => match asInt ops a, asInt ops b with Some x, Some y => Some (mkInt ops (wrap64 (x + y))) | _, _ => None end
   | OSub => match asInt ops a, asInt ops b with Some x, Some y => Some (mkInt ops (wrap64 (x - y))) | _, _ => None end
   | OMul => match asInt ops a, asInt ops b with Some x, Some y => Some (mkInt ops (wrap64 (x * y))) | _, _ => None end
+  (* Go's / on int truncates toward zero; a zero divisor is a run-time panic ([None] here, see [arith_why]);
+     math.MinInt64 / -1 wraps to math.MinInt64 *)
+  | ODiv => match asInt ops a, asInt ops b with
+            | Some x, Some y => if Z.eqb y 0 then None else Some (mkInt ops (wrap64 (Z.quot x y)))
+            | _, _ => None
+            end
   | OSAdd => match asStr ops a, asStr ops b with Some x, Some y => Some (mkStr ops (x ++ y)) | _, _ => None end
   | OLt => match asInt ops a, asInt ops b with Some x, Some y => Some (mkBool ops (Z.ltb x y)) | _, _ => None end
   | OGt => match asInt ops a, asInt ops b with Some x, Some y => Some (mkBool ops (Z.gtb x y)) | _, _ => None end
   | OLe => match asInt ops a, asInt ops b with Some x, Some y => Some (mkBool ops (Z.leb x y)) | _, _ => None end
   | OGe => match asInt ops a, asInt ops b with Some x, Some y => Some (mkBool ops (Z.geb x y)) | _, _ => None end
   | OAnd | OOr => None
+  end.
+
+(** why [arith] has no result: the Go run-time panic of an integer division by zero, or ill-typed operands *)
+Definition arith_why (op:binop) (a b:V) : string :=
+  match op, asInt ops b with
+  | ODiv, Some 0%Z => "panic: runtime error: integer divide by zero"
+  | _, _ => "operator: operands"
   end.
 
 (** *** formatting *)
